@@ -245,3 +245,19 @@ def emit_self(F, map_value=None):
             v = sym(f['name'])
         fields.append((f['name'], v))
     return path[0], ctor(path[0], a['variants'][0]['name'], fields), unknown
+
+
+def loop_instances(trace):
+    """id(event) -> tuple of the positions of the loop_begin events enclosing it: two events with the same tuple ran in the
+    same generic iteration of the same loop *instance* (two consecutive loops over the same collection differ)"""
+    out = {}
+    stack = []
+    for i, e in enumerate(trace):
+        if e['kind'] == 'loop_begin':
+            stack.append(i)
+        elif e['kind'] == 'loop_end':
+            if stack:
+                stack.pop()
+        else:
+            out[id(e)] = tuple(stack)
+    return out
